@@ -849,6 +849,72 @@ func ruleArithMap(c *Ctx, r *Report, rule string) {
 	_ = sort.Strings
 }
 
+// ruleCoercion: the mixed string cells of + and *.
+func ruleCoercion(c *Ctx, r *Report, rule string) {
+	r.rule(rule, 4, "string + int appends strconv.Itoa(int); string + float appends strconv.FormatFloat(f, 'f', -1, 64); string + nil leaves the string; string * int is strings.Repeat(string, int); the left operand is the second-from-top value")
+	vm, err := c.vmModel()
+	if err != nil {
+		r.bad(rule, "vm", err.Error(), "")
+		return
+	}
+	find := func(op string, guardA, guardB string) (vals []string, deltas []string, n int) {
+		arm := vm.Arms[op]
+		if arm == nil {
+			return
+		}
+		for _, p := range arm.Paths {
+			if p.Abort {
+				continue
+			}
+			ga, gb := false, false
+			for _, ev := range p.Events {
+				if ev.Kind == "if" && ev.Detail == guardA+"=true" {
+					ga = true
+				}
+				if ev.Kind == "if" && ev.Detail == guardB+"=true" {
+					gb = true
+				}
+			}
+			if !ga || !gb {
+				continue
+			}
+			n++
+			w := "-"
+			for _, ev := range p.Events {
+				if ev.Kind == "stk:w" {
+					w = ev.Detail + "=" + ev.Val.String()
+				}
+			}
+			vals = append(vals, w)
+			deltas = append(deltas, p.Delta.String())
+		}
+		return
+	}
+	type cell struct{ key, op, ga, gb, want string }
+	cells := []cell{
+		{"string+int", "opADD", "callres(isString(stk(-2)))", "callres(isInt(stk(-1)))", "tos-2=binop(stk(-2) + callres(strconv.Itoa(stk(-1))))"},
+		{"string+float", "opADD", "callres(isString(stk(-2)))", "callres(isFloat(stk(-1)))", "tos-2=binop(stk(-2) + callres(strconv.FormatFloat(stk(-1), 102, -1, 64)))"},
+		{"string+nil", "opADD", "callres(isString(stk(-2)))", "stk(-1) == nil(<nil>)", "-"},
+		{"string*int", "opMUL", "callres(isString(stk(-2)))", "callres(isInt(stk(-1)))", "tos-2=callres(strings.Repeat(stk(-2), stk(-1)))"},
+	}
+	for _, cl := range cells {
+		vals, deltas, n := find(cl.op, cl.ga, cl.gb)
+		ok := n > 0
+		got := ""
+		for i, v := range vals {
+			got = v
+			if v != cl.want || deltas[i] != "-1" {
+				ok = false
+			}
+		}
+		pos := ""
+		if arm := vm.Arms[cl.op]; arm != nil && arm.Clause != nil {
+			pos = c.pos(arm.Clause.Pos())
+		}
+		r.check(ok, rule, cl.key, cl.want, fmt.Sprintf("%s: the result is %q on %d paths; documented: %q (and exactly one value consumed)", cl.key, got, n, cl.want), pos)
+	}
+}
+
 func checkC01(c *Ctx, r *Report) {
 	spec, err := loadLangSpec()
 	if err != nil {
@@ -863,10 +929,11 @@ func checkC01(c *Ctx, r *Report) {
 	ruleArithMap(c, r, "arith-map")
 	ruleConstPush(c, r, "const-push")
 	ruleDivZero(c, r, "div-zero", true)
+	ruleCoercion(c, r, "coercion")
 	ruleStringOpaque(c, r, "string-literal-scan")
 	ruleTokenTables(c, r, "token-tables", spec)
 	ruleVMEffect(c, r, "vm-effect", true)
-	r.note("the value of any compound expression; the (operator x type x type) dispatch cells of the arithmetic arm beyond operand order (the suite pins them at depth one); string/number coercion cells")
+	r.note("the value of any compound expression; the full (operator x type x type) dispatch matrix beyond operand order and the four string coercion cells (the suite pins the cells at depth one)")
 	r.assume("assumption A (no diagnostic raised) for the emission templates")
 }
 
